@@ -260,3 +260,17 @@ package regattaserver
 //@   requires m != nil && m.AuthFunc != nil
 //@   ensures [C17.override.reset] err == authErr(m.AuthFunc, ctx)
 //@   modifies nothing
+
+// ---------------------------------------------------------------- log entry -> replicated command (C06)
+
+//@ import raftpb "github.com/lni/dragonboat/v4/raftpb"
+// entryToCommand: every shipped command carries the index of its log entry; an entry that is not an
+// encoded proposal (config change, empty/no-op, legacy plain entry) is shipped as DUMMY, an encoded
+// one as the command it holds (payload after the one-byte encoding header).
+//@ func entryToCommand
+//@   results cmd, err
+//@   requires [raft] e.Type == 2 ==> len(e.Cmd) >= 1
+//@   ensures [C06.cmd.index] err == nil ==> cmd != nil && cmd.LeaderIndex != nil && *cmd.LeaderIndex == e.Index
+//@   ensures [C06.cmd.dummy] err == nil && e.Type != 2 ==> cmd.Type == 2
+//@   ensures [C06.cmd.decode] err == nil && e.Type == 2 ==> cmd.Type == cmdKind(e.Cmd[1:])
+//@   modifies nothing
